@@ -11,4 +11,4 @@ Separate Extraction
   hevc_find_nalu_types hevc_find_nalu_types_upto hevc_contains_nalu_type
   hevc_is_rap_sample hevc_is_idr_sample hevc_has_parameter_sets hevc_get_parameter_sets
   hpt_params decode_pic_timing_hevc
-  c16_parse_sps c16_parse_pps c16_parse_slice sps_lookup pps_lookup chroma_lookup.
+  c16_parse_sps c16_parse_pps c16_parse_slice sps_lookup pps_lookup chroma_lookup get_slice_type.
